@@ -27,7 +27,8 @@ CLAIM = {
             "multiples of the subsampling / macropixel granularity or exceed the picture are refused; two distinct pixels never share an "
             "octet, within a plane and across planes; after an accepted resize (crop, or extension into the margins) every pixel that "
             "stays visible keeps its ADDRESS (so its value), a refused resize changes nothing, and a duplicate sees the same addresses "
-            "before and after.",
+            "before and after; the resize under test is the SECOND link of a chain whose first link is itself an arbitrary (symbolic) "
+            "resize, and the resized picture's last pixel must still lie inside its own plane.",
     "note": "Trusted: CBMC 6.11, the 12-line window classifier in the harness, shims (uatomic_seq.h, upool_depth0.h), static managers, "
             "fprestrict. Content preservation is decided on addresses (no pixel values are written / compared). Bounds: pictures up to "
             "12 x 6 pixels, arguments in [-40, 40]. Not covered: sound buffers (ubuf_sound_*), ubuf_pic.c helpers (blit, clear), "
@@ -37,13 +38,13 @@ CLAIM = {
 }
 
 
-def q(mode, fmt, hs, vs, marg, plane=0, plane2=0, timeout=280, sample=False):
+def q(mode, fmt, hs, vs, marg, plane=0, plane2=0, timeout=280, sample=False, chain=False):
     mp, pls = FMT[fmt]
     pl = " ".join('P("%s",%d,%d,%d)' % x for x in pls)
     defs = ["MODE_" + mode, "MACROPIXEL=%d" % mp, "PLANES=" + pl, "HS=%d" % hs, "VS=%d" % vs, "HMPRE=%d" % marg[0], "HMAPP=%d" % marg[1],
             "VPRE=%d" % marg[2], "VAPP=%d" % marg[3], "ALIGN=%d" % marg[4], "ALIGN_HMOFF=%d" % marg[5], "VERIF_POOL_NO_MGR_REF",
-            "PLANE=%d" % plane, "PLANE2=%d" % plane2]
-    return Query(name="%s_%s_p%d%s_%dx%d_m%s" % (mode.lower(), fmt, plane, ("-%d" % plane2) if mode == "INJECT" else "", hs, vs, "-".join(map(str, marg))),
+            "PLANE=%d" % plane, "PLANE2=%d" % plane2] + (["CHAIN"] if chain else [])
+    return Query(name="%s_%s_p%d%s_%dx%d_m%s" % (mode.lower() + ("chain" if chain else ""), fmt, plane, ("-%d" % plane2) if mode == "INJECT" else "", hs, vs, "-".join(map(str, marg))),
                  harness="C19_pic.c", defines=defs, shims=["uatomic_seq.h", "upool_depth0.h"], unwind=8, unwindset=UW, fp_restrict=True,
                  timeout=timeout, replay_witness=sample,
                  sample={"mode": mode, "format": fmt, "plane": pls[plane][0], "picture": [hs, vs],
@@ -67,7 +68,7 @@ def build(tier):
             for p in planes:
                 qs.append(q("WINDOW", f, hs, vs, m, plane=p, sample=(fi == 0 and mi == 1 and p == len(pls) - 1)))
                 if not quick or mi == 1:
-                    qs.append(q("RESIZE", f, hs, vs, m, plane=p, sample=(fi == 0 and mi == 1 and p == 0)))
+                    qs.append(q("RESIZE", f, hs, vs, m, plane=p, sample=(fi == 0 and mi == 1 and p == 0), chain=True))
             pairs = [(a, b) for a in range(len(pls)) for b in range(a, len(pls))]
             if quick:
                 pairs = pairs[:1] + pairs[-2:]
